@@ -90,7 +90,7 @@ OP_LEVEL = {}
 for _c, _lvl in (("OR", 1), ("AND", 2), ("CMP", 4), ("CAT", 5), ("ADD", 6), ("MUL", 7)):
     for _s in CLASS_SPELLINGS[_c]:
         OP_LEVEL[_s] = _lvl
-MIXED_CASE = {"OR": ["Or", "oR"], "AND": ["And", "aNd", "anD"], "DIV": ["Div", "dIV"],
+MIXED_CASE = {"OR": ["Or", "oR"], "AND": ["And", "aNd", "anD"], "DIV": ["Div", "dIV", "d\u0131v", "D\u0131V"],     # (U+0131 dotless i upper-cases to I: the lexer's keyword lookup accepts it, `dıv` is DIV)
               "MOD": ["Mod", "mOd"], "NOT": ["Not", "nOT"]}
 
 
